@@ -375,7 +375,9 @@ ASMJIT_FAVOR_SIZE Error init_func_detail(FuncDetail& func, const FuncSignature& 
             continue;
           }
 
-          if (TypeUtils::is_float(type_id) || TypeUtils::is_vec(type_id)) {
+          // MMX values are passed like vectors by conventions that pass them in XMM registers (SystemV: class SSE).
+          if (TypeUtils::is_float(type_id) || TypeUtils::is_vec(type_id) ||
+              (TypeUtils::is_mmx(type_id) && cc.has_flag(CallConvFlags::kPassMmxByXmm))) {
             uint32_t reg_id = Reg::kIdBad;
 
             if (vec_pos < CallConv::kMaxRegArgsPerGroup) {
